@@ -30,7 +30,8 @@ FINDING_DR = "C09-desc-firstlast-rowpath"
 FINDING_DS = "C09-desc-firstlast-shortcut"
 FINDING_DD = "C09-desc-dup-rowpath"
 FINDING_AS = "C09-aux-string-selector"
-ALL_FINDINGS = (FINDING_CT, FINDING_ML, FINDING_DR, FINDING_DS, FINDING_DD, FINDING_AS)
+FINDING_AR = "C09-aux-row-index"
+ALL_FINDINGS = (FINDING_CT, FINDING_ML, FINDING_DR, FINDING_DS, FINDING_DD, FINDING_AS, FINDING_AR)
 FN = {"count": 0, "sum": 1, "min": 2, "max": 3, "first": 4, "last": 5, "mean": 6}
 KIND = {0: 0, 1: 1, 2: 2, 3: 3}  # field id -> column kind (integer, float, boolean, string)
 
@@ -79,6 +80,9 @@ TEXT = {
                 "aggregated twice - count/sum include the overwritten version, min/max/first/last may return it",
     FINDING_AS: "`SELECT first|last(<string field>), <aux field>` on the statistics shortcut: the memtable builder keeps the selected string as a "
                 "slice of the column buffer that setColValInAux then rewrites - the statement returns other bytes (e.g. ' yy' for 'x y')",
+    FINDING_AR: "`SELECT first|last|min|max(x), y` on the statistics shortcut returns y of another row (or y of no row): the memtable builders hand "
+                "setColValInAux the index among non-null values where a row index is expected and leave the aux column untouched when the "
+                "selected row's aux is null; FirstLastReader uses the chunk's row count as row index inside a segment",
     FINDING_DS: "ORDER BY time DESC with GROUP BY tag on the statistics shortcut: file reader and memtable builder compute positional first/last "
                 "on reversed data and the partial results are merged by time: first()/last() return the value of another row",
 }
@@ -132,6 +136,17 @@ def coq_tuples(body, arity):
     if len(tups) != flat.count("("):
         return None
     return [tuple(int(x) for x in t.split(",")) for t in tups]
+
+
+def parse_natlist(o):
+    """the printed `M = [..] : list nat` as a list of ints; None when the output cannot be read completely"""
+    m = re.search(r"M\s*=\s*(.*?)\s*:\s*list", o, re.S)
+    if not m:
+        return None
+    flat = re.sub(r"%\w+", "", re.sub(r"\s+", "", m.group(1)))
+    if not re.fullmatch(r"\[(\d+(;\d+)*)?\]", flat):
+        return None
+    return [int(x) for x in re.findall(r"\d+", flat)]
 
 
 def parse_triples(o):
@@ -210,6 +225,16 @@ def main(ck):
                 for g in c["groups"] or []:
                     if g["rows"] and "/" in g["group"]:
                         bterms.append("(%s, %s, %s)" % (coq_z(c["bucket"]), coq_z(int(g["group"].rsplit("/", 1)[1])), coq_list([coq_z(r["t"]) for r in g["rows"]])))
+    aterms, agroups = [], []   # selector-with-aux groups: (fn, rows with aux, selected value, aux that came with it)
+    for hi, h in enumerate(hs):
+        for ci, c in enumerate(h.get("checks") or []):
+            if not c.get("has_aux"):
+                continue
+            for gi, g in enumerate(c["groups"] or []):
+                if g.get("aux_seen") and g["col"] == 0:
+                    rows = coq_list(["(%s, %s, %s)" % (coq_z(r["t"]), coq_z(r["v"]), "None" if r.get("a") is None else "(Some %s)" % coq_z(r["a"])) for r in (g["rows"] or [])])
+                    aterms.append("(%s, %s, %s, %s)" % (coq_z(FN[g["fn"]]), rows, coq_z(g["v"]), "None" if g.get("aux_got") is None else "(Some %s)" % coq_z(g["aux_got"])))
+                    agroups.append((hi, ci, gi, bool(g.get("aux_ok"))))
     chunks = [(hi, k) for hi, h in enumerate(hs) for k in range(len(h.get("chunks") or []))]
     files = []
     shard = 1500
@@ -247,7 +272,13 @@ def main(ck):
                           "Definition M := Eval vm_compute in bucket_mismatches cases.\nPrint M.\n" % ";\n".join(bterms)))
         if ncanary:
             files.append(("c09canary", canary_txt))
+        if aterms:
+            # the last case is a canary: last() = 5 at t=2 whose aux is the aux of ANOTHER row - it must be reported
+            acan = "(5, [(1, 9, Some 1); (2, 5, Some 2)], 5, Some 1)"
+            files.append(("c09aux", HDR + "Definition cases : list (Z * list (Z * Z * option Z) * Z * option Z) := [\n%s\n].\n"
+                          "Definition M := Eval vm_compute in aux_mismatches cases.\nPrint M.\n" % ";\n".join(aterms + [acan])))
     model_bad = set()
+    aux_model_bad = None
     chunk_res = {}   # (global chunk idx) -> {kind: set(idx)}
     mem_res = {}
     model_ok = ok
@@ -267,6 +298,13 @@ def main(ck):
                     continue
                 for x in re.findall(r"(\d+)(?:%nat)?", m.group(1)):
                     model_bad.add(k * shard + int(x))
+            elif files[k][0] == "c09aux":
+                lst = parse_natlist(o) if rc2 == 0 else None
+                if lst is None or len(aterms) not in lst:
+                    ck.broken.append("C09 aux model evaluation failed or its canary was not reported: %s" % o[-400:])
+                    model_ok = False
+                else:
+                    aux_model_bad = set(lst) - {len(aterms)}
             elif files[k][0] == "c09buckets":
                 m = re.search(r"M\s*=\s*(.*?)\s*:\s*list", o, re.S)
                 if rc2 != 0 or not m:
@@ -334,9 +372,17 @@ def main(ck):
             if c.get("has_aux"):
                 aux["statements"] += 1
                 aux["groups_checked"] += c.get("aux_checked", 0)
+                eligible[FINDING_AR] += bool(c["preagg"] and c.get("aux_checked"))
                 if c.get("aux_fail"):
                     aux["aux_value_mismatches"] += 1
                     aux.setdefault("first_mismatch", {"sql": c["sql"], "what": c["aux_fail"], "history_case": h["case"]})
+                    # the aux value of a statistics-served selector statement is part of the statement's answer
+                    if c["preagg"] and FINDING_AR in open_ids:
+                        known[FINDING_AR] += 1
+                        ck.known_finding(FINDING_AR, TEXT[FINDING_AR])
+                    else:
+                        slim = {k: h[k] for k in ("case", "nser", "nodup_mode", "ops")}
+                        report("selector-aux", c["aux_fail"], {"check": c, "history": slim})
             if not c.get("fail"):
                 continue
             why = [explain(c, cg, open_ids) for cg in (c.get("fail_cols") or [])] if c.get("fail_cols") else [None]
@@ -355,6 +401,15 @@ def main(ck):
                 ck.broken.append("correspondence C09: model agg_rows and the harness oracle disagree on history %d query `%s` group %s"
                                  % (hs[hi]["case"], c["sql"], c["groups"][gi]["group"]))
                 ck.nofail_detail = {"kind": "correspondence", "check": c, "group": c["groups"][gi]}
+                break
+
+    if model_ok and aux_model_bad is not None:
+        for idx, (hi, ci, gi, aux_ok) in enumerate(agroups):
+            if (idx in aux_model_bad) == aux_ok:
+                c = hs[hi]["checks"][ci]
+                ck.broken.append("correspondence C09: the model's check_aux and the harness oracle disagree on the aux value of `%s` group %s (history %d)"
+                                 % (c["sql"], c["groups"][gi]["group"], hs[hi]["case"]))
+                ck.nofail_detail = {"kind": "correspondence-aux", "check": c}
                 break
 
     # ---- stored statistics and chunk reads
@@ -470,10 +525,6 @@ def main(ck):
     ck.cov["query_histogram(fn/path)"] = modes
     ck.cov["statement_shapes"] = shapes
     ck.cov["selector_with_aux_field"] = aux
-    if aux["aux_value_mismatches"]:
-        ck.notes.append("observation (not a failure of C09, whose statement is about the functions' values): in %d of %d selector-with-aux statements "
-                        "(`SELECT last(x), y`) the aux value is not the aux field of a row carrying the selected value - all on the statistics shortcut "
-                        "(readAuxData / setColValInAux row indexes); the selector's own value was right" % (aux["aux_value_mismatches"], aux["statements"]))
     ck.cov["max_segments_histogram"] = segs
     ck.cov["histories_with_cross_generation_dup"] = sum(1 for h in hs if h.get("dup"))
     ck.cov["model_groups_evaluated"] = len(groups)
